@@ -213,7 +213,9 @@ def fill(b, st, decl, with_method=True, after_init=False, method_obj=None):
     b.psyms = []
     if pb:
         for (r, c) in pb:
-            Pm = ocp.parameter(r, c); b.psyms.append(Pm)
+            kind = decl['params'][len(b.p)]['kind']          # a block is global or per-interval as a whole
+            Pm = ocp.parameter(r, c) if kind == 'g' else ocp.parameter(r, c, grid=GRIDKW[kind], include_last=(kind == 'cp'))
+            b.psyms.append(Pm)
             for cc in range(c):
                 for rr in range(r):
                     b.p.append(Pm[rr, cc])
@@ -259,8 +261,9 @@ def fill(b, st, decl, with_method=True, after_init=False, method_obj=None):
         i0 = sum(r * c for r, c in pb)
         ocp.set_value(ca.veccat(*b.psyms), ca.DM([fl(decl['params'][k]['val'][0]) for k in range(i0)]))
     for Pm, (r, c) in (zip(b.psyms, pb) if not decl.get('catset') else []):
-        vals = [fl(decl['params'][i0 + k]['val'][0]) for k in range(r * c)]
-        ocp.set_value(Pm, ca.reshape(ca.DM(vals), r, c)); i0 += r * c
+        ncol = len(decl['params'][i0]['val'])          # 1 for a global block, one block per interval otherwise (side by side)
+        blocks = [ca.reshape(ca.DM([fl(decl['params'][i0 + k]['val'][j]) for k in range(r * c)]), r, c) for j in range(ncol)]
+        ocp.set_value(Pm, ca.horzcat(*blocks)); i0 += r * c
     for i, p in enumerate(decl['params']):
         if i < i0: continue
         if p['val']:
@@ -388,7 +391,12 @@ def through_save_load(b):
     b2.xq = list(ocp2.qstates) if decl.get('qstates') else []
     kindkey = {'g': '', 'c': 'control', 'cp': 'control+'}
     it = {k: iter(list(ocp2.parameters[k])) for k in ('', 'control', 'control+')}
-    b2.p = [next(it[kindkey[p['kind']]]) for p in decl['params']]
+    b2.p = []; b2.psyms = []
+    for (r, c) in (decl.get('pblocks') or []):
+        # a matrix-valued parameter: the scalar model parameters are its entries, column-major
+        S = next(it[kindkey[decl['params'][len(b2.p)]['kind']]]); b2.psyms.append(S)
+        b2.p += [S if r * c == 1 else S[rr, cc] for cc in range(c) for rr in range(r)]
+    b2.p += [next(it[kindkey[p['kind']]]) for p in decl['params'][len(b2.p):]]
     it = {k: iter(list(ocp2.variables[k])) for k in ('', 'control', 'control+')}
     b2.v = [next(it[kindkey[v['kind']]]) for v in decl['vars']]
     b2.quad_exprs = []
